@@ -20,6 +20,9 @@ type c08Case struct {
 	BadID  int
 	BadFin bool
 	D      Delivery
+	// Lead: the surrounding text before the report ends with a goroutine dump (optionally a
+	// blank line and more text); the report is then found by the next call of the loop.
+	Lead *Item `json:",omitempty"`
 }
 
 func (c *c08Case) report() (*RaceM, *RaceM) {
@@ -40,18 +43,37 @@ func c08Oracle(c c08Case) error {
 	printed, truth := c.report()
 	s := c.S
 	s.Items = []Item{{Race: printed, After: c.S.Items[0].After, NoEOL: c.S.Items[0].NoEOL}}
+	if c.Lead != nil {
+		s.Items = append([]Item{*c.Lead}, s.Items...)
+	}
 	x := s.Bytes()
 	in := c.D.reader(x)
 	var prefix bytes.Buffer
 	opts, loose := variantOpts(x)
 	defer looseFor(loose)()
+	wantPrefix := s.Pre
+	if c.Lead != nil {
+		var w bytes.Buffer
+		snap0, suffix0, err0 := stack.ScanSnapshot(in, &w, opts)
+		if snap0 == nil || err0 != nil {
+			return fmt.Errorf("goroutine dump in front of the report: snapshot=%v err=%v", snap0 != nil, err0)
+		}
+		if e := cmpGoroutines(c.Lead.expected(), snap0.Goroutines); e != nil {
+			return fmt.Errorf("goroutine dump in front of the report: %v", e)
+		}
+		if !bytes.Equal(w.Bytes(), s.Pre) {
+			return fmt.Errorf("text before the dump in front of the report: %s", firstDiffBytes(s.Pre, w.Bytes()))
+		}
+		in = io.MultiReader(bytes.NewReader(append([]byte{}, suffix0...)), in)
+		wantPrefix = c.Lead.After
+	}
 	snap, suffix, err := stack.ScanSnapshot(in, &prefix, opts)
 	rest, _ := io.ReadAll(in)
 	if snap == nil {
 		return fmt.Errorf("no snapshot (err=%v)", err)
 	}
-	if !bytes.Equal(prefix.Bytes(), s.Pre) {
-		return fmt.Errorf("text before the report: %s", firstDiffBytes(s.Pre, prefix.Bytes()))
+	if !bytes.Equal(prefix.Bytes(), wantPrefix) {
+		return fmt.Errorf("text before the report: %s", firstDiffBytes(wantPrefix, prefix.Bytes()))
 	}
 	if !snap.IsRace() {
 		return fmt.Errorf("IsRace() is false")
@@ -68,8 +90,8 @@ func c08Oracle(c c08Case) error {
 	if err != nil && err != io.EOF {
 		return fmt.Errorf("unexpected error: %v", err)
 	}
-	if got := append(append([]byte{}, suffix...), rest...); !bytes.Equal(got, s.Items[0].After) {
-		return fmt.Errorf("text after the closing separator: %s", firstDiffBytes(s.Items[0].After, got))
+	if got := append(append([]byte{}, suffix...), rest...); !bytes.Equal(got, c.S.Items[0].After) {
+		return fmt.Errorf("text after the closing separator: %s", firstDiffBytes(c.S.Items[0].After, got))
 	}
 	return nil
 }
@@ -95,6 +117,25 @@ var c08 = Check[c08Case]{
 				}
 			}
 			c.BadFin = rapid.Bool().Draw(t, "badFin")
+		}
+		if oneIn(t, 4, "leadingDump") {
+			lo := StreamOpts{MinItems: 1, MaxItems: 1, NoRace: true, Dump: DumpOpts{MaxG: 3, MaxFrames: 4, Variants: true}, Junk: JunkOpts{MaxLines: 2}}
+			lead := genStream(t, lo).Items[0]
+			lead.NoEOL = false
+			if rapid.Bool().Draw(t, "nothingBetween") || len(lead.After) == 0 {
+				// dump, optional blank line, report: keep the dump unindented (the separator
+				// line would break a uniform indentation) and properly ended
+				lead.After = nil
+				d := *lead.Dump
+				d.Indent, d.BlankIndent = "", false
+				lead.Dump = &d
+				if g := &d.Gs[len(d.Gs)-1]; g.Unavail && g.Creator == nil {
+					lead.Blank = true
+				}
+			} else if n := len(lead.After); n > 0 && lead.After[n-1] != '\n' {
+				lead.After = append(append([]byte{}, lead.After...), '\n')
+			}
+			c.Lead = &lead
 		}
 		return c
 	},
@@ -122,6 +163,12 @@ var c08 = Check[c08Case]{
 		}
 		subset := len(r.Secs) < len(r.Ops)
 		after := len(c.S.Items[0].After) > 0
+		if c.Lead != nil {
+			cl = append(cl, "goroutine_dump_in_front")
+			if c.Lead.Blank && len(c.Lead.After) == 0 {
+				cl = append(cl, "dump_blank_line_report")
+			}
+		}
 		if deep {
 			cl = append(cl, "deep_stack")
 		}
